@@ -20,7 +20,7 @@ out = ['# Seeded changes', '',
        '(apply to /repo, check, undo); with `SEED_ISOLATED=1` it works on an rsync copy of /verif whose harness and translator point at a',
        'scratch worktree of /repo carrying the patch, so /repo itself is untouched (how rounds 3 and 4 were run).', '',
        'Rounds: `Cxx-1`, `Cxx-2` round 1 (40); `Cxx-3` … `Cxx-5` round 2 (60); `Cxx-6`, `Cxx-7` round 3 (40); `Cxx-8`, `Cxx-9` rounds 4 and 5 (20 + 20, ten',
-       'properties each); `Cxx-10`, `Cxx-11` rounds 6 and 7 (20 + 20); `Cxx-12`, `Cxx-13` round 8 (20) — 240 in all; what each round asked for and the first-run results are in DESIGN.md §10.1. `harmless/H01.diff` … `H14.diff` (+ `Hkk.json`)',
+       'properties each); `Cxx-10`, `Cxx-11` rounds 6 and 7 (20 + 20); `Cxx-12`, `Cxx-13` rounds 8 and 9 (20 + 10) — 250 in all; what each round asked for and the first-run results are in DESIGN.md §10.1. `harmless/H01.diff` … `H14.diff` (+ `Hkk.json`)',
        'are NOT seeded defects: they are the fourteen behaviour-preserving refactorings of DESIGN.md §10.3 (no check may raise an alarm on',
        'them; re-run with `tools/harmless.sh`).', '',
        '| seed | breaks | change | needs to manifest | caught by | ran clean |', '|---|---|---|---|---|---|']
